@@ -194,20 +194,68 @@ theorem energy_eraseIdx (pop : Pop F) (mols : List (Mol F)) (b : F) (j : Nat) (x
 
 end energy
 
-/-! ### Inversion: what an `ok` result looks like -/
+/-! ### Inversion: what an `ok` result looks like (for any legal reactant index) -/
 section inversion
-variable {F : Type} [Field F] [LinearOrder F] [IsStrictOrderedRing F]
+variable {F : Type} [BEq F] [Add F] [Sub F] [Mul F] [LT F] [LE F] [DecidableLT F] [DecidableLE F] [OfNat F 0] [OfNat F 1]
 
-theorem onWall_ok (lr a : F) (st : St F) (h : (onWall lr a st).status = .ok) :
-    ∃ p r pop rest i x m, st.stack = [p] :: [r] :: pop :: rest ∧ pop[i]? = some x ∧ x.obj = r.obj ∧
-      position pop r = some i ∧ st.mols[i]? = some m ∧
-      ((p.obj ≤ r.obj + m.ke ∧ lr < 1 ∧ (onWall lr a st).st =
-          { stack := pop.set i p :: rest,
-            mols := st.mols.set i { (m.hit.updateBest p) with ke := (r.obj + m.ke - p.obj) * a },
+theorem isAt_some {pop : Pop F} {i : Nat} {r : Ind F} (h : isAt pop i r = true) :
+    ∃ x, pop[i]? = some x ∧ (x == r) = true := by
+  unfold isAt at h
+  split at h
+  · rename_i x hx; exact ⟨x, hx, h⟩
+  · simp at h
+
+theorem isAt_of_position {pop : Pop F} {i : Nat} {r : Ind F} (h : position pop r = some i) :
+    isAt pop i r = true := by
+  obtain ⟨x, hx, hb⟩ := position_some pop r i h
+  simp [isAt, hx, hb]
+
+theorem isAt_of_positionOther {pop : Pop F} {i j : Nat} {r : Ind F} (h : positionOther pop i r = some j) :
+    isAt pop j r = true ∧ j ≠ i := by
+  obtain ⟨hji, x, hx, hb⟩ := positionOther_some pop i r j h
+  exact ⟨by simp [isAt, hx, hb], hji⟩
+
+/-- The code's own choice (first match) is a legal witness, on every state. -/
+theorem legal1_first (st : St F) : legal1 (firstIdx st) st = true := by
+  obtain ⟨stack, mols, buffer⟩ := st
+  unfold legal1
+  split
+  · rename_i a r pop rest hs
+    simp only at hs
+    simp only [firstIdx, hs]
+    cases hp : position pop r with
+    | none => simp
+    | some i => simp [isAt_of_position hp]
+  · rfl
+
+theorem legal2_first (st : St F) : legal2 (firstIdx st) (secondIdx st) st = true := by
+  obtain ⟨stack, mols, buffer⟩ := st
+  unfold legal2
+  split
+  · rename_i a r1 r2 pop rest hs
+    simp only at hs
+    simp only [firstIdx, secondIdx, hs]
+    cases hp : position pop r1 with
+    | none => simp
+    | some i =>
+      cases hq : positionOther pop i r2 with
+      | none => simp [hq]
+      | some j =>
+        obtain ⟨hj, hji⟩ := isAt_of_positionOther hq
+        simp [hq, isAt_of_position hp, hj, Ne.symm hji]
+  · rfl
+
+theorem onWallAt_okW (lr a : F) (wi : Nat) (st : St F) (hl : legal1 wi st = true)
+    (h : (onWallAt lr a wi st).status = .ok) :
+    ∃ p r pop rest x m, st.stack = [p] :: [r] :: pop :: rest ∧ pop[wi]? = some x ∧
+      (x == r) = true ∧ st.mols[wi]? = some m ∧
+      ((p.obj ≤ r.obj + m.ke ∧ lr < 1 ∧ (onWallAt lr a wi st).st =
+          { stack := pop.set wi p :: rest,
+            mols := st.mols.set wi { (m.hit.updateBest p) with ke := (r.obj + m.ke - p.obj) * a },
             buffer := st.buffer + (r.obj + m.ke - p.obj) * (1 - a) }) ∨
-       (¬ p.obj ≤ r.obj + m.ke ∧ (onWall lr a st).st =
-          { st with stack := pop :: rest, mols := st.mols.set i m.hit })) := by
-  unfold onWall at h ⊢
+       (¬ p.obj ≤ r.obj + m.ke ∧ (onWallAt lr a wi st).st =
+          { st with stack := pop :: rest, mols := st.mols.set wi m.hit })) := by
+  unfold onWallAt at h ⊢
   split at h
   · rename_i pPop rPop pop rest hs
     split at h
@@ -216,12 +264,15 @@ theorem onWall_ok (lr a : F) (st : St F) (h : (onWall lr a st).status = .ok) :
       · rename_i r
         split at h
         · simp at h
-        · rename_i i hp
+        · rename_i i0 hp
+          simp only at h
           split at h
           · simp at h
           · rename_i m hm
-            obtain ⟨x, hx, hb⟩ := position_some pop r i hp
-            refine ⟨p, r, pop, rest, i, x, m, hs, hx, ind_beq_obj hb, hp, hm, ?_⟩
+            have hat : isAt pop wi r = true := by
+              simp only [legal1, hs, hp, Option.isNone_some, Bool.false_or] at hl; exact hl
+            obtain ⟨x, hx, hb⟩ := isAt_some hat
+            refine ⟨p, r, pop, rest, x, m, hs, hx, hb, hm, ?_⟩
             have hke : m.hit.ke = m.ke := rfl
             simp only [hs, hp, hm, hke] at h ⊢
             by_cases hc : p.obj ≤ r.obj + m.ke
@@ -233,23 +284,24 @@ theorem onWall_ok (lr a : F) (st : St F) (h : (onWall lr a st).status = .ok) :
     · simp at h
   · simp at h
 
-theorem decomposition_ok (dA δ1 δ2 dB : F) (st : St F) (h : (decomposition dA δ1 δ2 dB st).status = .ok) :
-    ∃ p1 p2 r pop rest i x m, st.stack = [p1, p2] :: [r] :: pop :: rest ∧ pop[i]? = some x ∧ x.obj = r.obj ∧
-      position pop r = some i ∧ st.mols[i]? = some m ∧
-      ((p1.obj + p2.obj ≤ r.obj + m.ke ∧ (decomposition dA δ1 δ2 dB st).st =
-          { stack := (pop.set i p1 ++ [p2]) :: rest,
-            mols := st.mols.set i (Mol.new ((r.obj + m.ke - (p1.obj + p2.obj)) * dA) p1) ++
+theorem decompositionAt_okW (dA δ1 δ2 dB : F) (wi : Nat) (st : St F) (hl : legal1 wi st = true)
+    (h : (decompositionAt dA δ1 δ2 dB wi st).status = .ok) :
+    ∃ p1 p2 r pop rest x m, st.stack = [p1, p2] :: [r] :: pop :: rest ∧ pop[wi]? = some x ∧
+      (x == r) = true ∧ st.mols[wi]? = some m ∧
+      ((p1.obj + p2.obj ≤ r.obj + m.ke ∧ (decompositionAt dA δ1 δ2 dB wi st).st =
+          { stack := (pop.set wi p1 ++ [p2]) :: rest,
+            mols := st.mols.set wi (Mol.new ((r.obj + m.ke - (p1.obj + p2.obj)) * dA) p1) ++
                       [Mol.new ((r.obj + m.ke - (p1.obj + p2.obj)) * (1 - dA)) p2],
             buffer := st.buffer }) ∨
        (¬ p1.obj + p2.obj ≤ r.obj + m.ke ∧ r.obj + m.ke + δ1 * δ2 * st.buffer - (p1.obj + p2.obj) < 0 ∧
-          (decomposition dA δ1 δ2 dB st).st = { st with stack := pop :: rest, mols := st.mols.set i m.hit }) ∨
+          (decompositionAt dA δ1 δ2 dB wi st).st = { st with stack := pop :: rest, mols := st.mols.set wi m.hit }) ∨
        (¬ p1.obj + p2.obj ≤ r.obj + m.ke ∧ ¬ r.obj + m.ke + δ1 * δ2 * st.buffer - (p1.obj + p2.obj) < 0 ∧
-          (decomposition dA δ1 δ2 dB st).st =
-          { stack := (pop.set i p1 ++ [p2]) :: rest,
-            mols := st.mols.set i (Mol.new ((r.obj + m.ke + δ1 * δ2 * st.buffer - (p1.obj + p2.obj)) * dB) p1) ++
+          (decompositionAt dA δ1 δ2 dB wi st).st =
+          { stack := (pop.set wi p1 ++ [p2]) :: rest,
+            mols := st.mols.set wi (Mol.new ((r.obj + m.ke + δ1 * δ2 * st.buffer - (p1.obj + p2.obj)) * dB) p1) ++
                       [Mol.new ((r.obj + m.ke + δ1 * δ2 * st.buffer - (p1.obj + p2.obj)) * (1 - dB)) p2],
             buffer := st.buffer * (1 - δ1 * δ2) })) := by
-  unfold decomposition at h ⊢
+  unfold decompositionAt at h ⊢
   split at h
   · rename_i pPop rPop pop rest hs
     split at h
@@ -258,12 +310,15 @@ theorem decomposition_ok (dA δ1 δ2 dB : F) (st : St F) (h : (decomposition dA 
       · rename_i r
         split at h
         · simp at h
-        · rename_i i hp
+        · rename_i i0 hp
+          simp only at h
           split at h
           · simp at h
           · rename_i m hm
-            obtain ⟨x, hx, hb⟩ := position_some pop r i hp
-            refine ⟨p1, p2, r, pop, rest, i, x, m, hs, hx, ind_beq_obj hb, hp, hm, ?_⟩
+            have hat : isAt pop wi r = true := by
+              simp only [legal1, hs, hp, Option.isNone_some, Bool.false_or] at hl; exact hl
+            obtain ⟨x, hx, hb⟩ := isAt_some hat
+            refine ⟨p1, p2, r, pop, rest, x, m, hs, hx, hb, hm, ?_⟩
             simp only [hs, hp, hm] at h ⊢
             by_cases hc : p1.obj + p2.obj ≤ r.obj + m.ke
             · left; exact ⟨hc, by rw [if_pos hc]⟩
@@ -275,19 +330,20 @@ theorem decomposition_ok (dA δ1 δ2 dB : F) (st : St F) (h : (decomposition dA 
     · simp at h
   · simp at h
 
-theorem intermolecular_ok (d4 : F) (st : St F) (h : (intermolecular d4 st).status = .ok) :
-    ∃ p1 p2 r1 r2 pop rest i j x y mi mj, st.stack = [p1, p2] :: [r1, r2] :: pop :: rest ∧
-      pop[i]? = some x ∧ x.obj = r1.obj ∧ pop[j]? = some y ∧ y.obj = r2.obj ∧ j ≠ i ∧
-      position pop r1 = some i ∧ positionOther pop i r2 = some j ∧
-      st.mols[i]? = some mi ∧ st.mols[j]? = some mj ∧
-      ((0 ≤ (r1.obj + mi.ke) + (r2.obj + mj.ke) - (p1.obj + p2.obj) ∧ (intermolecular d4 st).st =
-          { stack := ((pop.set i p1).set j p2) :: rest,
-            mols := (st.mols.set i (({ mi.hit with ke := ((r1.obj + mi.ke) + (r2.obj + mj.ke) - (p1.obj + p2.obj)) * d4 } : Mol F).updateBest p1)).set j
+theorem intermolecularAt_okW (d4 : F) (wi wj : Nat) (st : St F) (hl : legal2 wi wj st = true)
+    (h : (intermolecularAt d4 wi wj st).status = .ok) :
+    ∃ p1 p2 r1 r2 pop rest x y mi mj, st.stack = [p1, p2] :: [r1, r2] :: pop :: rest ∧
+      pop[wi]? = some x ∧ pop[wj]? = some y ∧ wj ≠ wi ∧
+      (x == r1) = true ∧ (y == r2) = true ∧
+      st.mols[wi]? = some mi ∧ st.mols[wj]? = some mj ∧
+      ((0 ≤ (r1.obj + mi.ke) + (r2.obj + mj.ke) - (p1.obj + p2.obj) ∧ (intermolecularAt d4 wi wj st).st =
+          { stack := ((pop.set wi p1).set wj p2) :: rest,
+            mols := (st.mols.set wi (({ mi.hit with ke := ((r1.obj + mi.ke) + (r2.obj + mj.ke) - (p1.obj + p2.obj)) * d4 } : Mol F).updateBest p1)).set wj
                       (({ mj.hit with ke := ((r1.obj + mi.ke) + (r2.obj + mj.ke) - (p1.obj + p2.obj)) * (1 - d4) } : Mol F).updateBest p2),
             buffer := st.buffer }) ∨
-       (¬ 0 ≤ (r1.obj + mi.ke) + (r2.obj + mj.ke) - (p1.obj + p2.obj) ∧ (intermolecular d4 st).st =
-          { st with stack := pop :: rest, mols := (st.mols.set i mi.hit).set j mj.hit })) := by
-  unfold intermolecular at h ⊢
+       (¬ 0 ≤ (r1.obj + mi.ke) + (r2.obj + mj.ke) - (p1.obj + p2.obj) ∧ (intermolecularAt d4 wi wj st).st =
+          { st with stack := pop :: rest, mols := (st.mols.set wi mi.hit).set wj mj.hit })) := by
+  unfold intermolecularAt at h ⊢
   split at h
   · rename_i pPop rPop pop rest hs
     split at h
@@ -296,16 +352,20 @@ theorem intermolecular_ok (d4 : F) (st : St F) (h : (intermolecular d4 st).statu
       · rename_i r1 r2
         split at h
         · simp at h
-        · rename_i i hp
+        · rename_i i0 hp
           split at h
           · simp at h
-          · rename_i j hq
+          · rename_i j0 hq
+            simp only at h
             split at h
             · rename_i mi mj hmi hmj
-              obtain ⟨x, hx, hb⟩ := position_some pop r1 i hp
-              obtain ⟨hji, y, hy, hby⟩ := positionOther_some pop i r2 j hq
-              refine ⟨p1, p2, r1, r2, pop, rest, i, j, x, y, mi, mj, hs, hx, ind_beq_obj hb, hy, ind_beq_obj hby, hji,
-                hp, hq, hmi, hmj, ?_⟩
+              have hat : isAt pop wi r1 = true ∧ isAt pop wj r2 = true ∧ wi ≠ wj := by
+                simp only [legal2, hs, hp, hq, Bool.and_eq_true, bne_iff_ne, ne_eq] at hl
+                exact ⟨hl.1.1, hl.1.2, hl.2⟩
+              obtain ⟨x, hx, hb⟩ := isAt_some hat.1
+              obtain ⟨y, hy, hby⟩ := isAt_some hat.2.1
+              refine ⟨p1, p2, r1, r2, pop, rest, x, y, mi, mj, hs, hx, hy,
+                Ne.symm hat.2.2, hb, hby, hmi, hmj, ?_⟩
               have hki : mi.hit.ke = mi.ke := rfl
               have hkj : mj.hit.ke = mj.ke := rfl
               simp only [hs, hp, hq, hmi, hmj, hki, hkj] at h ⊢
@@ -318,17 +378,18 @@ theorem intermolecular_ok (d4 : F) (st : St F) (h : (intermolecular d4 st).statu
     · simp at h
   · simp at h
 
-theorem synthesis_ok (st : St F) (h : (synthesis st).status = .ok) :
-    ∃ p r1 r2 pop rest i j x y mi mj, st.stack = [p] :: [r1, r2] :: pop :: rest ∧
-      pop[i]? = some x ∧ x.obj = r1.obj ∧ pop[j]? = some y ∧ y.obj = r2.obj ∧ j ≠ i ∧
-      position pop r1 = some i ∧ positionOther pop i r2 = some j ∧
-      st.mols[i]? = some mi ∧ st.mols[j]? = some mj ∧
-      ((p.obj ≤ (r1.obj + mi.ke) + (r2.obj + mj.ke) ∧ (synthesis st).st =
-          { stack := ((pop.set i p).eraseIdx j) :: rest,
-            mols := (st.mols.set i (Mol.new ((r1.obj + mi.ke) + (r2.obj + mj.ke) - p.obj) p)).eraseIdx j,
+theorem synthesisAt_okW (wi wj : Nat) (st : St F) (hl : legal2 wi wj st = true)
+    (h : (synthesisAt wi wj st).status = .ok) :
+    ∃ p r1 r2 pop rest x y mi mj, st.stack = [p] :: [r1, r2] :: pop :: rest ∧
+      pop[wi]? = some x ∧ pop[wj]? = some y ∧ wj ≠ wi ∧
+      (x == r1) = true ∧ (y == r2) = true ∧
+      st.mols[wi]? = some mi ∧ st.mols[wj]? = some mj ∧
+      ((p.obj ≤ (r1.obj + mi.ke) + (r2.obj + mj.ke) ∧ (synthesisAt wi wj st).st =
+          { stack := ((pop.set wi p).eraseIdx wj) :: rest,
+            mols := (st.mols.set wi (Mol.new ((r1.obj + mi.ke) + (r2.obj + mj.ke) - p.obj) p)).eraseIdx wj,
             buffer := st.buffer }) ∨
-       (¬ p.obj ≤ (r1.obj + mi.ke) + (r2.obj + mj.ke) ∧ (synthesis st).st = { st with stack := pop :: rest })) := by
-  unfold synthesis at h ⊢
+       (¬ p.obj ≤ (r1.obj + mi.ke) + (r2.obj + mj.ke) ∧ (synthesisAt wi wj st).st = { st with stack := pop :: rest })) := by
+  unfold synthesisAt at h ⊢
   split at h
   · rename_i pPop rPop pop rest hs
     split at h
@@ -337,16 +398,20 @@ theorem synthesis_ok (st : St F) (h : (synthesis st).status = .ok) :
       · rename_i r1 r2
         split at h
         · simp at h
-        · rename_i i hp
+        · rename_i i0 hp
           split at h
           · simp at h
-          · rename_i j hq
+          · rename_i j0 hq
+            simp only at h
             split at h
             · rename_i mi mj hmi hmj
-              obtain ⟨x, hx, hb⟩ := position_some pop r1 i hp
-              obtain ⟨hji, y, hy, hby⟩ := positionOther_some pop i r2 j hq
-              refine ⟨p, r1, r2, pop, rest, i, j, x, y, mi, mj, hs, hx, ind_beq_obj hb, hy, ind_beq_obj hby, hji,
-                hp, hq, hmi, hmj, ?_⟩
+              have hat : isAt pop wi r1 = true ∧ isAt pop wj r2 = true ∧ wi ≠ wj := by
+                simp only [legal2, hs, hp, hq, Bool.and_eq_true, bne_iff_ne, ne_eq] at hl
+                exact ⟨hl.1.1, hl.1.2, hl.2⟩
+              obtain ⟨x, hx, hb⟩ := isAt_some hat.1
+              obtain ⟨y, hy, hby⟩ := isAt_some hat.2.1
+              refine ⟨p, r1, r2, pop, rest, x, y, mi, mj, hs, hx, hy,
+                Ne.symm hat.2.2, hb, hby, hmi, hmj, ?_⟩
               simp only [hs, hp, hq, hmi, hmj] at h ⊢
               by_cases hc : p.obj ≤ (r1.obj + mi.ke) + (r2.obj + mj.ke)
               · left; exact ⟨hc, by rw [if_pos hc]⟩
@@ -357,4 +422,304 @@ theorem synthesis_ok (st : St F) (h : (synthesis st).status = .ok) :
   · simp at h
 
 end inversion
+
+section inversionField
+variable {F : Type} [Field F] [LinearOrder F] [IsStrictOrderedRing F]
+
+theorem onWallAt_ok (lr a : F) (wi : Nat) (st : St F) (hl : legal1 wi st = true)
+    (h : (onWallAt lr a wi st).status = .ok) :
+    ∃ p r pop rest x m, st.stack = [p] :: [r] :: pop :: rest ∧ pop[wi]? = some x ∧ x.obj = r.obj ∧
+      (x == r) = true ∧ st.mols[wi]? = some m ∧
+      ((p.obj ≤ r.obj + m.ke ∧ lr < 1 ∧ (onWallAt lr a wi st).st =
+          { stack := pop.set wi p :: rest,
+            mols := st.mols.set wi { (m.hit.updateBest p) with ke := (r.obj + m.ke - p.obj) * a },
+            buffer := st.buffer + (r.obj + m.ke - p.obj) * (1 - a) }) ∨
+       (¬ p.obj ≤ r.obj + m.ke ∧ (onWallAt lr a wi st).st =
+          { st with stack := pop :: rest, mols := st.mols.set wi m.hit })) := by
+  obtain ⟨p, r, pop, rest, x, m, hs, hx, hb, hm, hcase⟩ := onWallAt_okW lr a wi st hl h
+  exact ⟨p, r, pop, rest, x, m, hs, hx, ind_beq_obj hb, hb, hm, hcase⟩
+
+theorem decompositionAt_ok (dA δ1 δ2 dB : F) (wi : Nat) (st : St F) (hl : legal1 wi st = true)
+    (h : (decompositionAt dA δ1 δ2 dB wi st).status = .ok) :
+    ∃ p1 p2 r pop rest x m, st.stack = [p1, p2] :: [r] :: pop :: rest ∧ pop[wi]? = some x ∧ x.obj = r.obj ∧
+      (x == r) = true ∧ st.mols[wi]? = some m ∧
+      ((p1.obj + p2.obj ≤ r.obj + m.ke ∧ (decompositionAt dA δ1 δ2 dB wi st).st =
+          { stack := (pop.set wi p1 ++ [p2]) :: rest,
+            mols := st.mols.set wi (Mol.new ((r.obj + m.ke - (p1.obj + p2.obj)) * dA) p1) ++
+                      [Mol.new ((r.obj + m.ke - (p1.obj + p2.obj)) * (1 - dA)) p2],
+            buffer := st.buffer }) ∨
+       (¬ p1.obj + p2.obj ≤ r.obj + m.ke ∧ r.obj + m.ke + δ1 * δ2 * st.buffer - (p1.obj + p2.obj) < 0 ∧
+          (decompositionAt dA δ1 δ2 dB wi st).st = { st with stack := pop :: rest, mols := st.mols.set wi m.hit }) ∨
+       (¬ p1.obj + p2.obj ≤ r.obj + m.ke ∧ ¬ r.obj + m.ke + δ1 * δ2 * st.buffer - (p1.obj + p2.obj) < 0 ∧
+          (decompositionAt dA δ1 δ2 dB wi st).st =
+          { stack := (pop.set wi p1 ++ [p2]) :: rest,
+            mols := st.mols.set wi (Mol.new ((r.obj + m.ke + δ1 * δ2 * st.buffer - (p1.obj + p2.obj)) * dB) p1) ++
+                      [Mol.new ((r.obj + m.ke + δ1 * δ2 * st.buffer - (p1.obj + p2.obj)) * (1 - dB)) p2],
+            buffer := st.buffer * (1 - δ1 * δ2) })) := by
+  obtain ⟨p1, p2, r, pop, rest, x, m, hs, hx, hb, hm, hcase⟩ := decompositionAt_okW dA δ1 δ2 dB wi st hl h
+  exact ⟨p1, p2, r, pop, rest, x, m, hs, hx, ind_beq_obj hb, hb, hm, hcase⟩
+
+theorem intermolecularAt_ok (d4 : F) (wi wj : Nat) (st : St F) (hl : legal2 wi wj st = true)
+    (h : (intermolecularAt d4 wi wj st).status = .ok) :
+    ∃ p1 p2 r1 r2 pop rest x y mi mj, st.stack = [p1, p2] :: [r1, r2] :: pop :: rest ∧
+      pop[wi]? = some x ∧ x.obj = r1.obj ∧ pop[wj]? = some y ∧ y.obj = r2.obj ∧ wj ≠ wi ∧
+      (x == r1) = true ∧ (y == r2) = true ∧
+      st.mols[wi]? = some mi ∧ st.mols[wj]? = some mj ∧
+      ((0 ≤ (r1.obj + mi.ke) + (r2.obj + mj.ke) - (p1.obj + p2.obj) ∧ (intermolecularAt d4 wi wj st).st =
+          { stack := ((pop.set wi p1).set wj p2) :: rest,
+            mols := (st.mols.set wi (({ mi.hit with ke := ((r1.obj + mi.ke) + (r2.obj + mj.ke) - (p1.obj + p2.obj)) * d4 } : Mol F).updateBest p1)).set wj
+                      (({ mj.hit with ke := ((r1.obj + mi.ke) + (r2.obj + mj.ke) - (p1.obj + p2.obj)) * (1 - d4) } : Mol F).updateBest p2),
+            buffer := st.buffer }) ∨
+       (¬ 0 ≤ (r1.obj + mi.ke) + (r2.obj + mj.ke) - (p1.obj + p2.obj) ∧ (intermolecularAt d4 wi wj st).st =
+          { st with stack := pop :: rest, mols := (st.mols.set wi mi.hit).set wj mj.hit })) := by
+  obtain ⟨p1, p2, r1, r2, pop, rest, x, y, mi, mj, hs, hx, hy, hji, hb, hby, hmi, hmj, hcase⟩ :=
+    intermolecularAt_okW d4 wi wj st hl h
+  exact ⟨p1, p2, r1, r2, pop, rest, x, y, mi, mj, hs, hx, ind_beq_obj hb, hy, ind_beq_obj hby, hji, hb, hby, hmi, hmj, hcase⟩
+
+theorem synthesisAt_ok (wi wj : Nat) (st : St F) (hl : legal2 wi wj st = true)
+    (h : (synthesisAt wi wj st).status = .ok) :
+    ∃ p r1 r2 pop rest x y mi mj, st.stack = [p] :: [r1, r2] :: pop :: rest ∧
+      pop[wi]? = some x ∧ x.obj = r1.obj ∧ pop[wj]? = some y ∧ y.obj = r2.obj ∧ wj ≠ wi ∧
+      (x == r1) = true ∧ (y == r2) = true ∧
+      st.mols[wi]? = some mi ∧ st.mols[wj]? = some mj ∧
+      ((p.obj ≤ (r1.obj + mi.ke) + (r2.obj + mj.ke) ∧ (synthesisAt wi wj st).st =
+          { stack := ((pop.set wi p).eraseIdx wj) :: rest,
+            mols := (st.mols.set wi (Mol.new ((r1.obj + mi.ke) + (r2.obj + mj.ke) - p.obj) p)).eraseIdx wj,
+            buffer := st.buffer }) ∨
+       (¬ p.obj ≤ (r1.obj + mi.ke) + (r2.obj + mj.ke) ∧ (synthesisAt wi wj st).st = { st with stack := pop :: rest })) := by
+  obtain ⟨p, r1, r2, pop, rest, x, y, mi, mj, hs, hx, hy, hji, hb, hby, hmi, hmj, hcase⟩ := synthesisAt_okW wi wj st hl h
+  exact ⟨p, r1, r2, pop, rest, x, y, mi, mj, hs, hx, ind_beq_obj hb, hy, ind_beq_obj hby, hji, hb, hby, hmi, hmj, hcase⟩
+
+end inversionField
+
+
+/-! ### Non-negativity under rounding
+
+The non-negativity clause does not need exact arithmetic.  It only needs what a correctly rounded
+arithmetic on a totally ordered carrier without NaN gives (IEEE-754 doubles in round-to-nearest as
+long as no NaN arises, and every ordered field): rounding is monotone and `0`, `1` are exact, so
+`b ≤ a ⇒ 0 ≤ a ⊖ b`, `0 ≤ a, b ⇒ 0 ≤ a ⊕ b, 0 ≤ a ⊗ b`, and `a, b ∈ [0,1] ⇒ a ⊗ b ≤ 1`. -/
+section rounded
+variable {F : Type} [BEq F] [Add F] [Sub F] [Mul F] [LT F] [LE F] [DecidableLT F] [DecidableLE F] [OfNat F 0] [OfNat F 1]
+
+/-- Legal draws: the loss-rate draw lies in `[lr, 1]` with `0 ≤ lr`, every other draw in `[0, 1]`. -/
+def Rx.legalDraws : Rx F → Prop
+  | .onWall lr a _ => 0 ≤ lr ∧ lr ≤ a ∧ a ≤ 1
+  | .decomp dA δ1 δ2 dB _ => (0 ≤ dA ∧ dA ≤ 1) ∧ (0 ≤ δ1 ∧ δ1 ≤ 1) ∧ (0 ≤ δ2 ∧ δ2 ≤ 1) ∧ (0 ≤ dB ∧ dB ≤ 1)
+  | .inter d4 _ _ => 0 ≤ d4 ∧ d4 ≤ 1
+  | .synth _ _ => True
+
+/-- The facts about the carrier's (possibly rounded) arithmetic the non-negativity clause rests on. -/
+structure MonoArith (F : Type) [Add F] [Sub F] [Mul F] [LT F] [LE F] [OfNat F 0] [OfNat F 1] : Prop where
+  le_trans : ∀ a b c : F, a ≤ b → b ≤ c → a ≤ c
+  le_of_not_lt : ∀ a b : F, ¬ a < b → b ≤ a
+  add_nonneg : ∀ a b : F, 0 ≤ a → 0 ≤ b → 0 ≤ a + b
+  sub_nonneg : ∀ a b : F, b ≤ a → 0 ≤ a - b
+  mul_nonneg : ∀ a b : F, 0 ≤ a → 0 ≤ b → 0 ≤ a * b
+  mul_le_one : ∀ a b : F, 0 ≤ a → a ≤ 1 → 0 ≤ b → b ≤ 1 → a * b ≤ 1
+
+/-- No kinetic energy and not the buffer is negative. -/
+def NonNeg (st : St F) : Prop := (∀ m ∈ st.mols, 0 ≤ m.ke) ∧ 0 ≤ st.buffer
+
+theorem updateBest_keW (m : Mol F) (p : Ind F) : (m.updateBest p).ke = m.ke := by
+  unfold Mol.updateBest; split <;> rfl
+
+theorem nonneg_set {mols : List (Mol F)} (h : ∀ m ∈ mols, 0 ≤ m.ke) (i : Nat) (m' : Mol F) (hm : 0 ≤ m'.ke) :
+    ∀ m ∈ mols.set i m', 0 ≤ m.ke := by
+  intro m hin
+  rcases List.mem_or_eq_of_mem_set hin with h1 | h1
+  · exact h m h1
+  · subst h1; exact hm
+
+theorem nonneg_append {mols : List (Mol F)} (h : ∀ m ∈ mols, 0 ≤ m.ke) (m' : Mol F) (hm : 0 ≤ m'.ke) :
+    ∀ m ∈ mols ++ [m'], 0 ≤ m.ke := by
+  intro m hin
+  rcases List.mem_append.mp hin with h1 | h1
+  · exact h m h1
+  · simp only [List.mem_singleton] at h1; subst h1; exact hm
+
+end rounded
+
+/-! ### The run invariant -/
+section invariant
+variable {F : Type} [Field F] [LinearOrder F] [IsStrictOrderedRing F]
+
+/-- What holds of population / molecule list / buffer between two updates: index-aligned, no
+negative kinetic energy or buffer, hit counters ordered (`min_hit ≤ num_hit`, so the criterion's
+`u32` subtraction cannot underflow), every molecule's remembered best is at least as good as the
+individual it sits beside. -/
+structure InvT (pop : Pop F) (mols : List (Mol F)) (buffer : F) : Prop where
+  aligned : pop.length = mols.length
+  ke_nonneg : ∀ m ∈ mols, 0 ≤ m.ke
+  hits : ∀ m ∈ mols, m.minHit ≤ m.numHit
+  buffer_nonneg : 0 ≤ buffer
+  best_le : ∀ xm ∈ pop.zip mols, xm.2.best.obj ≤ xm.1.obj
+
+/-- The invariant of a state whose population is on top of the stack. -/
+def RunInv (st : St F) : Prop := InvT (st.stack.headD []) st.mols st.buffer
+
+/-- A (individual, molecule) pair that may sit in an invariant state. -/
+def PairOk (x : Ind F) (m : Mol F) : Prop := 0 ≤ m.ke ∧ m.minHit ≤ m.numHit ∧ m.best.obj ≤ x.obj
+
+theorem InvT.pair {pop : Pop F} {mols : List (Mol F)} {b : F} (h : InvT pop mols b) {i : Nat} {x : Ind F} {m : Mol F}
+    (hx : pop[i]? = some x) (hm : mols[i]? = some m) : PairOk x m := by
+  have hz : (pop.zip mols)[i]? = some (x, m) := by
+    rw [List.getElem?_zip_eq_some]; exact ⟨hx, hm⟩
+  exact ⟨h.ke_nonneg m (List.mem_of_getElem? hm), h.hits m (List.mem_of_getElem? hm),
+    h.best_le (x, m) (List.mem_of_getElem? hz)⟩
+
+theorem InvT.set {pop : Pop F} {mols : List (Mol F)} {b b' : F} (h : InvT pop mols b) (i : Nat) (x' : Ind F) (m' : Mol F)
+    (hp : PairOk x' m') (hb : 0 ≤ b') : InvT (pop.set i x') (mols.set i m') b' := by
+  refine ⟨by simp [h.aligned], ?_, ?_, hb, ?_⟩
+  · intro m hm
+    rcases List.mem_or_eq_of_mem_set hm with hin | heq
+    · exact h.ke_nonneg m hin
+    · subst heq; exact hp.1
+  · intro m hm
+    rcases List.mem_or_eq_of_mem_set hm with hin | heq
+    · exact h.hits m hin
+    · subst heq; exact hp.2.1
+  · intro xm hxm
+    rw [zip_set] at hxm
+    rcases List.mem_or_eq_of_mem_set hxm with hin | heq
+    · exact h.best_le xm hin
+    · subst heq; exact hp.2.2
+
+theorem set_self_of_getElem? {α : Type} (l : List α) (i : Nat) (x : α) (h : l[i]? = some x) : l.set i x = l := by
+  apply List.ext_getElem?
+  intro k
+  by_cases hk : i = k
+  · subst hk
+    have hl : i < l.length := by
+      by_contra hc
+      rw [List.getElem?_eq_none (by omega)] at h; simp at h
+    rw [List.getElem?_set_self hl, h]
+  · rw [List.getElem?_set_ne hk]
+
+theorem InvT.set_right {pop : Pop F} {mols : List (Mol F)} {b b' : F} (h : InvT pop mols b) (i : Nat) (x : Ind F) (m' : Mol F)
+    (hx : pop[i]? = some x) (hp : PairOk x m') (hb : 0 ≤ b') : InvT pop (mols.set i m') b' := by
+  have := h.set i x m' hp hb
+  rwa [set_self_of_getElem? pop i x hx] at this
+
+theorem InvT.append {pop : Pop F} {mols : List (Mol F)} {b : F} (h : InvT pop mols b) (x : Ind F) (m : Mol F)
+    (hp : PairOk x m) : InvT (pop ++ [x]) (mols ++ [m]) b := by
+  refine ⟨by simp [h.aligned], ?_, ?_, h.buffer_nonneg, ?_⟩
+  · intro m' hm
+    rcases List.mem_append.mp hm with hin | hin
+    · exact h.ke_nonneg m' hin
+    · simp only [List.mem_singleton] at hin; subst hin; exact hp.1
+  · intro m' hm
+    rcases List.mem_append.mp hm with hin | hin
+    · exact h.hits m' hin
+    · simp only [List.mem_singleton] at hin; subst hin; exact hp.2.1
+  · intro xm hxm
+    rw [List.zip_append h.aligned] at hxm
+    rcases List.mem_append.mp hxm with hin | hin
+    · exact h.best_le xm hin
+    · simp only [List.zip_cons_cons, List.zip_nil_right, List.mem_singleton] at hin; subst hin; exact hp.2.2
+
+theorem InvT.eraseIdx {pop : Pop F} {mols : List (Mol F)} {b : F} (h : InvT pop mols b) (j : Nat) :
+    InvT (pop.eraseIdx j) (mols.eraseIdx j) b := by
+  refine ⟨by simp [List.length_eraseIdx, h.aligned], ?_, ?_, h.buffer_nonneg, ?_⟩
+  · intro m hm; exact h.ke_nonneg m (List.mem_of_mem_eraseIdx hm)
+  · intro m hm; exact h.hits m (List.mem_of_mem_eraseIdx hm)
+  · intro xm hxm
+    rw [zip_eraseIdx] at hxm
+    exact h.best_le xm (List.mem_of_mem_eraseIdx hxm)
+
+theorem updateBest_best_le (m : Mol F) (p : Ind F) : (m.updateBest p).best.obj ≤ p.obj := by
+  unfold Mol.updateBest; split
+  · exact le_refl _
+  · rename_i h; exact not_lt.mp h
+
+theorem updateBest_hits (m : Mol F) (p : Ind F) (h : m.minHit ≤ m.numHit) :
+    (m.updateBest p).minHit ≤ (m.updateBest p).numHit := by
+  unfold Mol.updateBest; split
+  · exact le_refl _
+  · exact h
+
+theorem updateBest_numHit (m : Mol F) (p : Ind F) : (m.updateBest p).numHit = m.numHit := by
+  unfold Mol.updateBest; split <;> rfl
+
+theorem PairOk.hit {x : Ind F} {m : Mol F} (h : PairOk x m) : PairOk x m.hit :=
+  ⟨h.1, Nat.le_succ_of_le h.2.1, h.2.2⟩
+
+theorem PairOk.new (x : Ind F) (ke : F) (h : 0 ≤ ke) : PairOk x (Mol.new ke x) :=
+  ⟨h, Nat.le_refl _, le_refl _⟩
+
+/-- the accepted collision: counters of `m.hit`, best updated with the product, new kinetic energy -/
+theorem PairOk.collide {x p : Ind F} {m : Mol F} (h : PairOk x m) (ke : F) (hk : 0 ≤ ke) :
+    PairOk p (({ m.hit with ke := ke } : Mol F).updateBest p) := by
+  refine ⟨by rw [updateBest_ke]; exact hk, ?_, updateBest_best_le _ _⟩
+  exact updateBest_hits _ _ (Nat.le_succ_of_le h.2.1)
+
+theorem PairOk.collide' {x p : Ind F} {m : Mol F} (h : PairOk x m) (ke : F) (hk : 0 ≤ ke) :
+    PairOk p ({ (m.hit.updateBest p) with ke := ke } : Mol F) := by
+  refine ⟨hk, ?_, updateBest_best_le _ _⟩
+  exact updateBest_hits _ _ (Nat.le_succ_of_le h.2.1)
+
+theorem onWallAt_inv (lr a : F) (wi : Nat) (st : St F) (hl : legal1 wi st = true)
+    (h : (onWallAt lr a wi st).status = .ok) (hd : 0 ≤ lr ∧ lr ≤ a ∧ a ≤ 1)
+    (hI : InvT (st.stack.getD 2 []) st.mols st.buffer) : RunInv (onWallAt lr a wi st).st := by
+  obtain ⟨p, r, pop, rest, x, m, hs, hx, hxr, _, hm, hcase⟩ := onWallAt_ok lr a wi st hl h
+  simp only [hs, List.getD_cons_zero, List.getD_cons_succ] at hI
+  have hp := hI.pair hx hm
+  rcases hcase with ⟨hc, _, hst⟩ | ⟨_, hst⟩
+  · rw [hst]; unfold RunInv; simp only [List.headD_cons]
+    refine hI.set wi p _ (hp.collide' _ (mul_nonneg (by linarith) (by linarith))) ?_
+    have : 0 ≤ (r.obj + m.ke - p.obj) * (1 - a) := mul_nonneg (by linarith) (by linarith)
+    linarith [hI.buffer_nonneg]
+  · rw [hst]; unfold RunInv; simp only [List.headD_cons]
+    exact hI.set_right wi x _ hx hp.hit hI.buffer_nonneg
+
+theorem decompositionAt_inv (dA δ1 δ2 dB : F) (wi : Nat) (st : St F) (hl : legal1 wi st = true)
+    (h : (decompositionAt dA δ1 δ2 dB wi st).status = .ok)
+    (hd : (0 ≤ dA ∧ dA ≤ 1) ∧ (0 ≤ δ1 ∧ δ1 ≤ 1) ∧ (0 ≤ δ2 ∧ δ2 ≤ 1) ∧ (0 ≤ dB ∧ dB ≤ 1))
+    (hI : InvT (st.stack.getD 2 []) st.mols st.buffer) : RunInv (decompositionAt dA δ1 δ2 dB wi st).st := by
+  obtain ⟨p1, p2, r, pop, rest, x, m, hs, hx, hxr, _, hm, hcase⟩ := decompositionAt_ok dA δ1 δ2 dB wi st hl h
+  obtain ⟨hA, h1, h2, hB⟩ := hd
+  simp only [hs, List.getD_cons_zero, List.getD_cons_succ] at hI
+  have hp := hI.pair hx hm
+  rcases hcase with ⟨hc, hst⟩ | ⟨_, _, hst⟩ | ⟨_, hde, hst⟩
+  · rw [hst]; unfold RunInv; simp only [List.headD_cons]
+    exact (hI.set wi p1 _ (PairOk.new p1 _ (mul_nonneg (by linarith) hA.1)) hI.buffer_nonneg).append p2 _
+      (PairOk.new p2 _ (mul_nonneg (by linarith) (by linarith [hA.2])))
+  · rw [hst]; unfold RunInv; simp only [List.headD_cons]
+    exact hI.set_right wi x _ hx hp.hit hI.buffer_nonneg
+  · rw [hst]; unfold RunInv; simp only [List.headD_cons]
+    have hde' : 0 ≤ r.obj + m.ke + δ1 * δ2 * st.buffer - (p1.obj + p2.obj) := not_lt.mp hde
+    have hdd : δ1 * δ2 ≤ 1 := by nlinarith [h1.1, h1.2, h2.1, h2.2]
+    exact (hI.set wi p1 _ (PairOk.new p1 _ (mul_nonneg hde' hB.1))
+      (mul_nonneg hI.buffer_nonneg (by linarith))).append p2 _
+      (PairOk.new p2 _ (mul_nonneg hde' (by linarith [hB.2])))
+
+theorem intermolecularAt_inv (d4 : F) (wi wj : Nat) (st : St F) (hl : legal2 wi wj st = true)
+    (h : (intermolecularAt d4 wi wj st).status = .ok) (hd : 0 ≤ d4 ∧ d4 ≤ 1)
+    (hI : InvT (st.stack.getD 2 []) st.mols st.buffer) : RunInv (intermolecularAt d4 wi wj st).st := by
+  obtain ⟨p1, p2, r1, r2, pop, rest, x, y, mi, mj, hs, hx, hxr, hy, hyr, hji, _, _, hmi, hmj, hcase⟩ :=
+    intermolecularAt_ok d4 wi wj st hl h
+  simp only [hs, List.getD_cons_zero, List.getD_cons_succ] at hI
+  have hpi := hI.pair hx hmi
+  have hpj := hI.pair hy hmj
+  rcases hcase with ⟨hc, hst⟩ | ⟨_, hst⟩
+  · rw [hst]; unfold RunInv; simp only [List.headD_cons]
+    exact (hI.set wi p1 _ (hpi.collide _ (mul_nonneg hc hd.1)) hI.buffer_nonneg).set wj p2 _
+      (hpj.collide _ (mul_nonneg hc (by linarith [hd.2]))) hI.buffer_nonneg
+  · rw [hst]; unfold RunInv; simp only [List.headD_cons]
+    have h1 := hI.set_right wi x _ hx hpi.hit hI.buffer_nonneg
+    exact h1.set_right wj y _ hy hpj.hit hI.buffer_nonneg
+
+theorem synthesisAt_inv (wi wj : Nat) (st : St F) (hl : legal2 wi wj st = true)
+    (h : (synthesisAt wi wj st).status = .ok)
+    (hI : InvT (st.stack.getD 2 []) st.mols st.buffer) : RunInv (synthesisAt wi wj st).st := by
+  obtain ⟨p, r1, r2, pop, rest, x, y, mi, mj, hs, hx, hxr, hy, hyr, hji, _, _, hmi, hmj, hcase⟩ :=
+    synthesisAt_ok wi wj st hl h
+  simp only [hs, List.getD_cons_zero, List.getD_cons_succ] at hI
+  rcases hcase with ⟨hc, hst⟩ | ⟨_, hst⟩
+  · rw [hst]; unfold RunInv; simp only [List.headD_cons]
+    exact (hI.set wi p _ (PairOk.new p _ (by linarith)) hI.buffer_nonneg).eraseIdx wj
+  · rw [hst]; unfold RunInv; simp only [List.headD_cons]
+    exact hI
+
+end invariant
 end MahfModel.Cro
